@@ -165,6 +165,68 @@ def build_pes_stream_plain(rng, n_frames):
     return st
 
 
+def odd_packet(rng, length, pts):
+    """a PRIVATE_STREAM_1 packet with a fully valid VBI PES header (flags 0x84, PTS, header length 0x24, legal
+    data_identifier) whose PES_packet_length is `length` - any value, in particular < 178 and not N x 184 - 6 -
+    and exactly 6 + length bytes long (the header itself is cut short when length < 40); payload: stuffing units"""
+    hdr = du.pes_packet(pts, [du.stuffing_unit()], data_identifier=rng.choice([0x10, 0x15, 0x1F, 0x99, 0x9B]))[:46]
+    hdr[4], hdr[5] = length >> 8, length & 255
+    body, left = [], max(0, length - 40)
+    while left > 0:
+        if left == 1:
+            body += [0xFF]; left = 0
+        else:
+            k = min(left - 2, rng.choice([255, 255, 0x2C, rng.randrange(0, 256)]))
+            if left - 2 - k == 1:
+                k = max(0, k - 1) if k > 0 else k
+            body += [0xFF, k] + [0xFF] * k
+            left -= 2 + k
+    return (hdr + body)[:6 + length]
+
+
+def odd_length(rng):
+    """PES_packet_length of an odd packet: every small value from 0 upward is likely, the boundaries of the
+    header / look-ahead logic (40, 42, 48 + 40, 178) are frequent, larger non-multiples of 184 occur too"""
+    k = rng.random()
+    if k < 0.45:
+        return rng.randrange(0, 200)
+    if k < 0.65:
+        return rng.choice([0, 1, 5, 39, 40, 41, 42, 43, 44, 45, 46, 47, 48, 50, 61, 86, 87, 88, 89, 90, 137, 138, 176, 177, 178, 179])
+    if k < 0.85:
+        return max(0, 184 * rng.randrange(1, 5) - 6 + rng.choice([-7, -2, -1, 1, 2, 3, 45, 46, 47, 92, 100, 183]))
+    return rng.randrange(200, 3000)
+
+
+def build_odd_stream(rng, n_frames):
+    """intact one-packet frames with one or two odd packets (valid header, arbitrary PES_packet_length) between
+    them; the odd packets carry stuffing only, so every intact frame is expected as sent (the oracle allows the
+    loss of the first frame after an odd packet, as after any damage)"""
+    st = Stream("pes")
+    pts = rng.randrange(1 << 33)
+    prev_last = None
+    j = rng.randrange(2, n_frames - 3)
+    n_odd = rng.choice([1, 1, 1, 2])
+    lo = None
+    st.odd_lengths = []
+    for i in range(n_frames):
+        if i == j:
+            lo = len(st.bytes)
+            for _ in range(n_odd):
+                ln = odd_length(rng)
+                st.odd_lengths.append(ln)
+                st.bytes += odd_packet(rng, ln, rng.choice([pts, (pts + 1800) & ((1 << 33) - 1), 0x7654321, rng.randrange(1 << 33)]))
+        lines = du.gen_frame_lines(rng, True, prev_last)
+        prev_last = du.frame_line(*lines[-1][:3])
+        st.starts.append(len(st.bytes))
+        st.frames.append(du.expect_frame(pts, lines))
+        st.bytes += du.pes_packet(pts, [du.data_unit(*l) for l in lines])
+        pts = (pts + 3600) & ((1 << 33) - 1)
+    # "damage" = the odd packets in front of frame j: frames up to j-3 exactly, frame j may be lost, j+1.. must arrive
+    st.damage = (j - 1, lo, st.starts[j])
+    st.kind_detail = "odd_length"
+    return st
+
+
 def foreign_horizon(b, lo, hi):
     """largest offset a start-code-like pattern touching b[lo:hi] can make the demux skip to"""
     h = hi
@@ -262,7 +324,7 @@ def damage_ts(rng, st):
 class C07(verif.Spec):
     prop = "C07"
     comp = "demux"
-    lean_modules = ["ZvbiModel.Props.C07"]
+    lean_modules = ["ZvbiModel.Props.C07", "ZvbiModel.Props.C07Cor"]
     harness = "demux_harness"
     harness_link_lib = True
     timeout_per_case = 6.0
@@ -271,16 +333,22 @@ class C07(verif.Spec):
                     "after the overflow packet are proved for the model (for the repaired and the unrepaired shape of "
                     "the two fixed statements alike; the two old defects are proved counterexamples for the unrepaired "
                     "shape). TS path: invariant, safety/progress and split invariance proved in full. Coroutine "
-                    "interface: progress (no livelock) proved for every context; equality of its frames with feed's "
-                    "(cor_equals_feed_full) and frames 'as sent' after damage (resync_full, needs the Mux sender spec) "
-                    "are open statements judged by the oracle.")
+                    "interface: progress (no livelock) for every context, and cor_equals_feed (one drained buffer after "
+                    "any feed history, repaired source) proved by a second refinement; successive drained buffers are "
+                    "an open statement. Joined with C06 (Props/C07Cor.lean): parser equivalence EnParse.pesStream vs "
+                    "the demultiplexer and the round trip from the multiplexer model for every feed partition and "
+                    "through the coroutine, for frames of defined lines; header stage rejects PES_packet_length < 178 "
+                    "and the lookahead encoding of the payload state is an invariant. Frames 'as sent' after arbitrary "
+                    "damage (resync_full) stay with the oracle.")
     assumptions = ["the frame callback returns TRUE", "coroutine callers pass max_lines >= 64",
                    "feed buffers are shorter than 2^32 bytes (unsigned int arithmetic does not wrap)",
                    "all bytes are < 256 (the model is over Nat lists)"]
     trusted_base = ["harness/demux_harness.c + lean/Driver/Demux.lean (op-by-op correspondence incl. resume state)",
                     "lib/demux_util.py: my transcription of EN 300 472 / EN 301 775 / ISO 13818-1 sender side",
                     "constants PES_BUF_SIZE etc. hard-coded in the model, cross-checked by the `consts` op every run"]
-    open_statements = ["cor_equals_feed_full", "resync_full", "mux_demux_roundtrip_model_full"]
+    open_statements = ["resync_full",
+                       "cor_equals_feed_composed_full (Props/C07Cor.lean): successive buffers drained through vbi_dvb_demux_cor = the same buffers fed (proved: one drained buffer after any feed history = C07.cor_equals_feed_full, theorem C07Cor.cor_equals_feed; oracle: cor vs feed on every case)",
+                       "mux_demux_roundtrip_model_full (Props/C07.lean): proved for frames whose lines all have defined line numbers (C07Cor.mux_demux_roundtrip_model, C06Join.mux_demux_roundtrip_lib); open for frames that also carry undefined-line units (C06Join.mux_demux_roundtrip_undef_full)"]
 
     # ---------------------------------------------------------------- generation
     def variants(self, rng, st, heavy):
@@ -302,6 +370,26 @@ class C07(verif.Spec):
             c.append(newcor)
             for part in split_at(b, cuts(rng, len(b), "many")):
                 c.append("cor " + hx(part))
+        return c
+
+    def variants_odd(self, rng, st):
+        """whole / random cuts / 1-byte cuts / small fixed pieces / coroutine (whole, small pieces, random cuts)"""
+        b = st.bytes
+        c = ["new pes", "feed " + hx(b), "st"]
+        for mode in ("few", "many"):
+            c.append("new pes")
+            for part in split_at(b, cuts(rng, len(b), mode)):
+                c.append("feed " + hx(part))
+            c.append("st")
+        c += ["new pes", "feedn 1 " + hx(b), "st"]
+        for k in (7, rng.choice([2, 3, 5, 45, 46, 47, 48, 49, 91, 183, 184, 185]), rng.randrange(2, 400)):
+            c += ["new pes", "feedn %d %s" % (k, hx(b)), "st"]
+        c += ["newcor pes", "cor " + hx(b)]
+        for k in (1, 7, rng.choice([2, 3, 46, 47, 48, 188]), rng.randrange(2, 300)):
+            c += ["newcor pes", "corn %d %s" % (k, hx(b))]
+        c.append("newcor pes")
+        for part in split_at(b, cuts(rng, len(b), "many")):
+            c.append("cor " + hx(part))
         return c
 
     def gen_cases(self, rng, tier):
@@ -348,6 +436,12 @@ class C07(verif.Spec):
             add("pes_crafted", st)
         for i in range(N // 4):
             add("pes_undef", build_undef_stream(rng, rng.randrange(3, 8)))
+        for i in range(N // 2):
+            # valid-header packets with an arbitrary PES_packet_length between intact packets
+            st = build_odd_stream(rng, rng.randrange(7, 10))
+            c = self.variants_odd(rng, st)
+            self.meta["\n".join(c)] = ("pes_odd_length", st)
+            cases.append(c)
         for i in range(N // 4):
             st = build_lead_stream(rng)
             if rng.random() < 0.5:
